@@ -15,7 +15,8 @@ MF(m) == [k |-> m.k, w |-> m.w, d |-> m.d, pad |-> m.pad]
 Key(x) == [p |-> x.p, b |-> x.b, e |-> x.e]
 FilesOf(q) == LET xs == ToSet(q) IN [f \in {Key(x) : x \in xs} |-> (CHOOSE x \in xs : Key(x) = f).n]
 StateOf(o) == St(MF(o.modeFile), MF(o.intent), o.day, o.tod, FilesOf(o.files), ToSet(o.local), ToSet(o.ready),
-                 ToSet(o.uploaded), {[wk |-> x.wk, run |-> x.run] : x \in ToSet(o.requests)})
+                 ToSet(o.uploaded), {[wk |-> x.wk, run |-> x.run] : x \in ToSet(o.requests)},
+                 [st |-> o.proc.st, f |-> [p |-> o.proc.p, b |-> o.proc.b, e |-> o.proc.e]])
 
 If(c, name) == IF c THEN {} ELSE {name}
 Violated(r) ==
@@ -23,8 +24,9 @@ Violated(r) ==
        If(C_RequestOnlyWhenOn(a, s, t), "RequestOnlyWhenOn")
   \cup UNION {If(C_UploadableOnlyIfW(c, a, s, t), "UploadableOnlyIf." \o c) : c \in {"data", "age", "rate", "optin"}}
   \cup UNION {If(C_SentOnlyIfW(c, a, s, t), "SentOnlyIf." \o c) : c \in {"future", "optin"}}
-  \cup If(C_OffChangesNothing(a, s, t) /\ ((ExactlyOff(Gov(s)) /\ a.op \in {"run", "collect"}) => r.same.data), "OffChangesNothing")
+  \cup If(C_OffChangesNothing(a, s, t) /\ ((ExactlyOff(Gov(s)) /\ (a.op \in {"run", "collect", "protate"} \/ (a.op = "pinc" /\ s.proc.st # "open"))) => r.same.data), "OffChangesNothing")
   \cup If(C_OtherBehavesLocal(a, s, t), "OtherBehavesLocal")
+  \cup If(C_DisabledStaysSilent(a, s, t), "DisabledStaysSilent")
   \cup If(a.op = "set" =>
             LET accepted == a.ok /\ <<r.read.w, r.read.d>> = <<a.a, a.n1>>
                 rejected == ~a.ok /\ r.same.mode
@@ -35,6 +37,8 @@ Violated(r) ==
 Step(r, s) == CASE r.a.op = "run" -> RunStep(s, r.a.n1, r.a.n2, r.run)
                 [] r.a.op = "collect" -> CollectStep(s, r.a.a, r.w)
                 [] r.a.op = "set" -> SetStep(s, r.a.a, r.a.p, r.a.n1, r.a.ok)
+                [] r.a.op = "protate" -> ProcRotateStep(s, r.a.a, r.w)
+                [] r.a.op = "pinc" -> ProcIncStep(s)
                 [] OTHER -> s
 (* the observed successor is the specification's, nothing else appeared in   *)
 (* the directory, and the library reads the mode file as documented          *)
